@@ -71,7 +71,7 @@ def run(tier, seed):
     w = workdir("c20")
     v = Verdict(PID, tier, seed)
     tuftool = vlib.build_tuftool()
-    mc = model(w, 6 if tier == "quick" else 7, ["PlainSignSelfVerifies", "EditsClearSigs"], "check")
+    mc = model(w, 6 if tier == "quick" else 7, ["PlainSignSelfVerifies", "EditsClearSigs", "NoStaleEntries"], "check")
     if not mc.ok:
         raise vlib.ToolError("RootCli.tla violates its invariants:\n" + mc.violation[-2500:])
     cases = []
@@ -91,6 +91,13 @@ def run(tier, seed):
     wit = tlc("RootCli", wcfg, "c20-witness", workers=8, timeout=900)
     wl = wit.replays[:: max(1, len(wit.replays) // (25 if tier == "quick" else 200))]
     cases += wl
+    # ... and sequences on which a `sign --cross-sign` that appended the OTHER root's signature entries
+    # (made over other content) would let a later plain sign succeed below the threshold
+    w2cfg = make_cfg("MC_RootCli.cfg", {"MaxCmds": 5 if tier == "quick" else 6, "CrossAppends": "TRUE"}, os.path.join(w, "witness2.cfg"), invariants=["EmitBad"])
+    wit2 = tlc("RootCli", w2cfg, "c20-witness2", workers=8, timeout=900)
+    if not wit2.replays:
+        raise vlib.ToolError("RootCli.tla with CrossAppends = TRUE yields no witness sequence")
+    cases += wit2.replays[:: max(1, len(wit2.replays) // (25 if tier == "quick" else 200))]
     if tier == "thorough":
         g3 = model(w, 3, ["Emit"], "gen3", view=False)
         cases += g3.replays[seed % 50::50]
@@ -106,7 +113,7 @@ def run(tier, seed):
                for r in rows[len(rows) // 2: len(rows) // 2 + 2]]
     cov = {"states": mc.distinct, "transitions": mc.generated, "traces_validated_against_impl": stats["evaluations"],
            "samples": samples, "evaluations": stats["evaluations"], "distinct_nontrivial": len(stats["nontrivial"]),
-           "rule": "sequences = behaviours of RootCli.tla over 3 keys (RSA, Ed25519, ECDSA): all sequences of 2 commands (thorough: a fiftieth of all of 3) and simulated sequences of 6 (thorough: 12) commands among add-key (root / timestamp / all roles), remove-key (from root / everywhere), set-threshold, bump-version, set-version 2^32, expire, sign with every non-empty key set x --cross-sign x --ignore-threshold; each run through the tuftool binary built from the working tree; after every invocation the file is parsed by the harness, key ids recomputed and signatures verified independently; non-trivial = the sequence contains a sign",
+           "rule": "sequences = behaviours of RootCli.tla over 3 keys (RSA, Ed25519, ECDSA): all sequences of 2 commands (thorough: a fiftieth of all of 3) and simulated sequences of 6 (thorough: 12) commands among add-key (root / timestamp / all roles), remove-key (from root / everywhere), set-threshold, bump-version, set-version 2^32, expire, sign with every non-empty key set x --cross-sign (another root with root keys 1 and 2, signed by key 2) x --ignore-threshold; plus witness sequences that TLC finds on two variants of the model (threshold compared with the number of signature entries; cross-signing appending the other root's entries); each run through the tuftool binary built from the working tree; after every invocation the file is parsed by the harness, key ids recomputed and signatures verified independently; non-trivial = the sequence contains a sign",
            "exhaustive": False}
     return v.finish("model_checking", cov, ["TLC checks the command semantics (all sequences up to 6-7 commands with the history hidden); replayed sequences are a sample beyond length 2; the file is judged by the harness's own parser, canonical JSON, digest and signature verification"])
 
